@@ -147,6 +147,9 @@ const YAMLS: [(&str, Ty, &str); 4] = [("5", Ty::I64, "5"), ("hello", Ty::Str, "h
 enum Acc {
     Read(Ty),
     Write(Ty),
+    /// a configuration naming the property (value YAMLS[i]) is included now; it is only issued
+    /// while the property is present (typed): a later preset must not touch it
+    Include(usize),
 }
 
 fn read_as(m: &ModuleRef, t: Ty) -> Result<Option<String>, String> {
@@ -193,11 +196,20 @@ fn check_types(yaml: Option<usize>, seq: &[Acc]) -> Result<u64, String> {
             sim.include_cfg(&format!("a.x: {}\n", YAMLS[y].0));
         }
         sim.node("a", M);
-        let m = sim.get(&"a".into()).unwrap();
+        let mut m = sim.get(&"a".into()).unwrap();
         let mut typed: Option<(Ty, Option<String>)> = None;
         let mut trace = vec![];
         for (i, acc) in seq.iter().enumerate() {
             match *acc {
+                Acc::Include(y) => {
+                    if typed.is_some() {
+                        // alternate a specific and a wildcard entry
+                        let key = if i % 2 == 0 { "a.x" } else { "<any>.x" };
+                        sim.include_cfg(&format!("{key}: {}\n", YAMLS[y].0));
+                        m = sim.get(&"a".into()).unwrap();
+                        trace.push(format!("include {y}"));
+                    }
+                }
                 Acc::Read(t) => {
                     let got = read_as(&m, t);
                     trace.push(format!("{got:?}"));
@@ -270,7 +282,7 @@ fn check_types(yaml: Option<usize>, seq: &[Acc]) -> Result<u64, String> {
 }
 
 fn acc_alphabet() -> Vec<Acc> {
-    TYS.iter().map(|t| Acc::Read(*t)).chain(TYS.iter().map(|t| Acc::Write(*t))).collect()
+    TYS.iter().map(|t| Acc::Read(*t)).chain(TYS.iter().map(|t| Acc::Write(*t))).chain((0..YAMLS.len()).map(Acc::Include)).collect()
 }
 
 impl Property for C17 {
@@ -281,7 +293,7 @@ impl Property for C17 {
         format!(
             "every configuration of 1..=2 distinct entries, and every configuration of 3 entries over {}, whose keys are (1..3 segments from {{a, ab, b, aß, <any>}}) ++ (x | y.z) = 310 candidate keys, in every file order of the entries, x include order {{before node creation, after, first entry before and the rest after}}, \
              on a Sim with the module tree {:?}; oracle: reference matcher from the statement (props_keys() read before any property access == names of matching entries; value is the value of a matching entry; no panic); \
-             type rule: every sequence of 1..={} typed reads/writes over {{i64,u8,String,bool,f64}} on a property configured as 5 / hello / true / 1.5 / absent; \
+             type rule: every sequence of 1..={} typed reads / writes over {{i64,u8,String,bool,f64}} and later includes of a configuration naming the property (issued while it is present: they must not touch it) on a property configured as 5 / hello / true / 1.5 / absent; \
              non-trivial = configuration in which at least one entry addresses at least one module",
             tier.pick("key triples with at most one key of three path segments", "all keys"),
             MODULE_PATHS,
@@ -418,6 +430,9 @@ impl Property for C17 {
                 .iter()
                 .map(|a| {
                     let s = a.as_str().unwrap();
+                    if let Some(n) = s.strip_prefix("Include(") {
+                        return Acc::Include(n.trim_end_matches(')').parse().unwrap());
+                    }
                     let t = *TYS.iter().find(|t| s.contains(&format!("{t:?}"))).unwrap();
                     if s.starts_with("Read") {
                         Acc::Read(t)
